@@ -60,7 +60,7 @@ def gen_base(seed, tier):
         phase = "initialize" if bar == -1 else rp.choice(["before_bar", "trigger", "on_bar", "on_bar", "after_bar"])
         i = min(n - 1, max(0, bar) * k)
         ct = next((t for t in reversed(mw["closeTick"][: i + 1]) if t is not None), mw["closeTick"][0])
-        o = U.random_uni_op(rp, mw, ct, hostile=0.1)
+        o = U.random_uni_read(rp, mw, ct) if rp.random() < 0.25 else U.random_uni_op(rp, mw, ct, hostile=0.1)
         o.update({"bar": bar, "phase": phase})
         program.append(o)
     program.sort(key=lambda o: (o["bar"], ORDER.index(o["phase"])))
